@@ -17,7 +17,8 @@ CONSTANTS ExpiryDelta,   \* DEFAULT_TX_EXPIRY_DELTA (40)
 VARIABLES chain,    \* [1..top -> [b : block uid, txs : Seq(Tx)]],  Tx = [t, outs : Seq([n, pool, v, acct]), spends : Seq(n)]
           top,      \* height of the last block of the current chain (0: none)
           scanned,  \* heights whose block the wallet has scanned (rows of `blocks`)
-          txs,      \* known transactions: t -> [mined : height or -1, minobs : height]
+          txs,      \* known transactions: t -> [mined : height or -1, minobs : height, exp : expiry height, -1 unknown (learnt
+                    \*                                 from a compact block), Never = the transaction does not expire]
           known,    \* ids of the notes the wallet has a row for
           ninfo,    \* note id -> [t, pool, v, int, acct]   (every note any block ever created for the wallet; int: internal scope)
           links,    \* set of <<n, t>>: the wallet recorded that transaction t spends note n
@@ -27,6 +28,7 @@ VARIABLES chain,    \* [1..top -> [b : block uid, txs : Seq(Tx)]],  Tx = [t, out
 
 wvars == << chain, top, scanned, txs, known, ninfo, links, tip, maxFrom, taint >>
 
+Never == -100
 Max2(a, b) == IF a >= b THEN a ELSE b
 Min2(a, b) == IF a <= b THEN a ELSE b
 SeqToSet(s) == { s[i] : i \in DOMAIN s }
@@ -45,11 +47,15 @@ Spends(x)   == SeqToSet(x.spends) \ {0}
 \* notes whose receiving block the wallet has scanned on the current chain
 Live(sc) == UNION { OutNotes(e.tx) : e \in { e \in OnChain : e.h \in sc } }
 
-\* wallet-relevant transactions of scanned blocks: they pay the wallet, or spend a note whose
+\* notes whose nullifier the scanner looks for (get_nullifiers, "Unspent"): not those a mined or a never-expiring
+\* transaction already spends -- a conflicting spend of such a note in a scanned block goes unnoticed (the note is
+\* not counted either way)
+Settled(n) == \E k \in links : k[1] = n /\ (txs[k[2]].mined # -1 \/ txs[k[2]].exp = Never)
+
+\* wallet-relevant transactions of scanned blocks: they pay the wallet, or spend a tracked note whose
 \* receipt is scanned too (the nullifier of a note whose transaction a rewind un-mined is not
 \* tracked until its block is scanned again; until then the note is an orphan, see Counted)
-RelevantL(sc, live) == { e \in OnChain : e.h \in sc /\ (OutNotes(e.tx) # {} \/ (Spends(e.tx) \cap live) # {}) }
-Relevant(sc) == RelevantL(sc, Live(sc))
+RelevantL(sc, trk) == { e \in OnChain : e.h \in sc /\ (OutNotes(e.tx) # {} \/ (Spends(e.tx) \cap trk) # {}) }
 
 ----------------------------------------------------------------------------------------
 \* environment
@@ -73,13 +79,28 @@ UpdateTip(h) ==
     /\ tip' = Max2(tip, h)
     /\ UNCHANGED << chain, top, scanned, txs, known, ninfo, links, maxFrom, taint >>
 
-\* a successful scan_cached_blocks(from, n): the blocks from..from+n-1 that exist
-Scan(from, n) ==
+\* a successful scan_cached_blocks(from, n): the blocks from..from+n-1 that exist.
+\* A spend found in a scanned block is linked to the note it spends when the note's receipt is scanned too and the
+\* scanner tracks the note's nullifier.  For a settled note (one a mined or never-expiring transaction already spends)
+\* the scanner need not look: the pinned code ignores a conflicting spend when it scans the spending block and links it
+\* when the block *receiving* the note is scanned again (through its pruned map of nullifiers seen earlier).  The note
+\* is not counted either way, so the specification leaves these links (the set O) to the implementation.
+\* (O is passed in: TLC caches LET definitions only outside a quantifier, so the caller chooses it)
+ScanOpt(from, n) ==
+    LET R   == { h \in from..(from + n - 1) : h <= top }
+        sc  == scanned \cup R
+        live == Live(sc)
+        stl == { m \in live : Settled(m) }
+    IN  UNION { { << m, e.tx.t >> : m \in Spends(e.tx) \cap stl } : e \in { e \in OnChain : e.h \in sc } } \ links
+RelevantO(sc, trk, O) == { e \in OnChain : e.h \in sc /\ (\/ OutNotes(e.tx) # {} \/ (Spends(e.tx) \cap trk) # {}
+                                                          \/ \E k \in O : k[2] = e.tx.t) }
+Scan(from, n, O) ==
     LET R   == { h \in from..(from + n - 1) : h <= top }
         sc  == scanned \cup R
         live == Live(sc)
         kn  == known \cup live
-        rel == RelevantL(sc, live)
+        trk == { m \in live : ~Settled(m) }
+        rel == RelevantO(sc, trk, O)
         T   == { e.tx.t : e \in rel }
         hgt(t) == (CHOOSE e \in rel : e.tx.t = t).h
     IN  /\ scanned' = sc
@@ -87,9 +108,10 @@ Scan(from, n) ==
         /\ txs' = [t \in DOMAIN txs \cup T |->
                       IF t \in T
                       THEN [mined |-> hgt(t),
-                            minobs |-> IF t \in DOMAIN txs THEN Min2(txs[t].minobs, hgt(t)) ELSE hgt(t)]
+                            minobs |-> IF t \in DOMAIN txs THEN Min2(txs[t].minobs, hgt(t)) ELSE hgt(t),
+                            exp |-> IF t \in DOMAIN txs THEN txs[t].exp ELSE -1]
                       ELSE txs[t]]
-        /\ links' = links \cup UNION { { << m, e.tx.t >> : m \in Spends(e.tx) \cap live } : e \in rel }
+        /\ links' = links \cup O \cup UNION { { << m, e.tx.t >> : m \in Spends(e.tx) \cap trk } : e \in rel }
         /\ maxFrom' = IF R = {} THEN maxFrom ELSE Max2(maxFrom, from)
         /\ UNCHANGED << chain, top, ninfo, tip, taint >>
 
@@ -106,11 +128,31 @@ Truncate(req, to, fork, at) ==
                ELSE UNCHANGED << chain, top >>
     /\ UNCHANGED << known, ninfo, links, maxFrom >>
 
+\* create_proposed_transactions stored transaction t (built for target height `target`, expiry e): it spends the
+\* notes S and creates the outputs `outs`; the wallet records the spends and its own change at once, before the
+\* transaction is mined (a *pending* transaction, C08)
+Create(t, target, e, S, outs) ==
+    LET own == { outs[i].n : i \in { i \in DOMAIN outs : outs[i].n # 0 } }
+        chg == { outs[i].n : i \in { i \in DOMAIN outs : outs[i].n # 0 /\ outs[i].int } }
+    IN  /\ t \notin DOMAIN txs
+        /\ txs' = [x \in DOMAIN txs \cup {t} |-> IF x = t THEN [mined |-> -1, minobs |-> target, exp |-> e] ELSE txs[x]]
+        /\ links' = links \cup { << n, t >> : n \in S }
+        /\ known' = known \cup chg
+        /\ ninfo' = [n \in DOMAIN ninfo \cup own |->
+                        IF n \in DOMAIN ninfo THEN ninfo[n]
+                        ELSE LET j == CHOOSE j \in DOMAIN outs : outs[j].n = n
+                             IN  [t |-> t, pool |-> outs[j].pool, v |-> outs[j].v, int |-> outs[j].int, acct |-> outs[j].acct]]
+        /\ UNCHANGED << chain, top, scanned, tip, maxFrom, taint >>
+
 ----------------------------------------------------------------------------------------
 \* the ledger (C01)
 
+\* tx_unexpired_condition: mined below the target, or never expiring, or its known expiry not reached, or -- expiry
+\* unknown -- first observed at most ExpiryDelta blocks ago
 Unexpired(t, target) == \/ (txs[t].mined # -1 /\ txs[t].mined < target)
-                        \/ txs[t].minobs + ExpiryDelta >= target
+                        \/ txs[t].exp = Never
+                        \/ (txs[t].exp >= 0 /\ txs[t].exp >= target)
+                        \/ (txs[t].exp = -1 /\ txs[t].minobs + ExpiryDelta >= target)
 
 Counted(n, target) == /\ Unexpired(ninfo[n].t, target)
                       /\ \A lk \in links : lk[1] = n => ~Unexpired(lk[2], target)
